@@ -87,7 +87,7 @@ func template(t *rapid.T, label string, earlier, later []string, st *gstats, isN
 		case k == 7:
 			fmt.Fprintf(&b, "${%s}", rapid.SampledFrom([]string{"R1", "R2", "r1", "PATH"}).Draw(t, "rt"))
 		case k == 8:
-			b.WriteString(rapid.SampledFrom([]string{"$$A", "\\$A", "$${B}", "$$", "$(", "$"}).Draw(t, "esc"))
+			b.WriteString(rapid.SampledFrom([]string{"$$A", "\\$A", "$${B}", "$$", "$(", "$", "\\$5", "\\$", "^(a|b)\\$", "\\$ x", "$$5", "\\$\\$"}).Draw(t, "esc"))
 		case k == 9:
 			fmt.Fprintf(&b, "${%s:-%s}", rapid.SampledFrom(names).Draw(t, "dv"), "d")
 		case k == 10 && rapid.IntRange(0, 9).Draw(t, "rarefail") == 0:
